@@ -1,6 +1,7 @@
 import MitmVerif.Model.C38
 import MitmVerif.Gen.C38
 import MitmVerif.Model.C38_Conv
+import MitmVerif.Model.C38_State
 import Driver.Proto
 open MitmVerif Driver MitmVerif.C38 MitmVerif.Gen.C38
 
@@ -39,4 +40,37 @@ def c38Step (line : String) : String :=
   | ["golden"] => "golden"
   | _ => "bad-op"
 
-def main : IO Unit := runPure c38Step
+/-- the process-global tables of the two stateful converters, as the driver keeps them between lines -/
+structure DSt where
+  ws  : MitmVerif.C38Conv.Tbl MitmVerif.C38Conv.Dict
+  ids : MitmVerif.C38Conv.Ids
+
+def freshId (n : Nat) : MitmVerif.C36.Value := .str (("uuid-" ++ toString n).toUTF8.toList)
+
+def c38StepSt (st : DSt) (line : String) : DSt × String :=
+  match fields line with
+  | ["tables-reset"] => ({ ws := [], ids := { client := [], server := [], drawn := 0 } }, "ok")
+  | ["conv11", h] =>
+    match hexOr h with
+    | some b =>
+      match MitmVerif.C36.popTop 64 b with
+      | .ok (.dict kvs, []) =>
+        match MitmVerif.C38Conv.conv_11_12_st st.ws kvs with
+        | some (g', d') => ({ st with ws := g' }, s!"ok {showBytes (MitmVerif.C36.dumps (.dict d'))} {g'.length}")
+        | none => (st, "none")
+      | _ => (st, "bad-state")
+    | none => (st, "bad-op")
+  | ["conv4", h] =>
+    match hexOr h with
+    | some b =>
+      match MitmVerif.C36.popTop 64 b with
+      | .ok (.dict kvs, []) =>
+        match MitmVerif.C38Conv.conv_4_5_st freshId st.ids kvs with
+        | some (g', d') =>
+          ({ st with ids := g' }, s!"ok {showBytes (MitmVerif.C36.dumps (.dict d'))} {g'.client.length} {g'.server.length} {g'.drawn}")
+        | none => (st, "none")
+      | _ => (st, "bad-state")
+    | none => (st, "bad-op")
+  | _ => (st, c38Step line)
+
+def main : IO Unit := runState c38StepSt { ws := [], ids := { client := [], server := [], drawn := 0 } }
